@@ -31,7 +31,7 @@ Vec(k) == [1..k -> ProperFracs]
 Pick == /\ ps = <<>>
         /\ \E k \in 1..MaxLen : \E v \in Vec(k) :
              \/ (k <= 2 \/ SumIsOne(v)) /\ ps' = v
-             \/ \E i \in 1..k : LET w == [j \in 1..k |-> IF j = i THEN RemV ELSE v[j]] IN SumAtMostOne(w) /\ ps' = w
+             \/ \E i \in 1..k : LET w == [j \in 1..k |-> IF j = i THEN RemV ELSE v[j]] IN (k <= 2 \/ SumAtMostOne(w)) /\ ps' = w
         /\ res' = Allot(n, ps') /\ UNCHANGED n
 Next == Pick
 Spec == Init /\ [][Next]_vars
@@ -42,7 +42,7 @@ PNumI(i) == IF IsRem(ps[i]) THEN D - NumOver(ps, D) ELSE ps[i].n * (D \div ps[i]
 FloorI(i) == (n * PNumI(i)) \div D
 C06_Sem ==
   ps # <<>> =>
-    IF ~HasRem(ps) /\ ~SumIsOne(ps) THEN res.err = E_AllotSum
+    IF (~HasRem(ps) /\ ~SumIsOne(ps)) \/ (HasRem(ps) /\ ~SumAtMostOne(ps)) THEN res.err = E_AllotSum
     ELSE /\ res.err = ""
          /\ SumTo(res.sh, Len(ps)) = n
          /\ \A i \in 1..Len(ps) : res.sh[i] \in {FloorI(i), FloorI(i) + 1}
